@@ -448,6 +448,32 @@ def run (cfg : Cfg α β) (σ : Nat → Agent) : Nat → State (MPhase β) β
 
 end Swapped
 
+/-! ### `get_ncpu` (how `Analysis.do_trials` and the `IsParallelizable` classes obtain `ncpu`) -/
+
+/-- a Python value as far as `get_ncpu` looks at it: `None`, an `int` (`bool` included, `True == 1`), or
+anything else (float, numpy integer, str …) -/
+inductive PyVal where
+  | none
+  | int (n : Int)
+  | other
+  deriving DecidableEq, Repr
+
+/-- `get_ncpu(cfg, local_ncpu)`: the local setting, else `cfg['multiproc']['ncpu']`, else 1;
+`TypeError` if it is not an `int`, `ValueError` if it is `< 1` -/
+def getNcpu (cfgNcpu localNcpu : PyVal) : Except String Nat :=
+  let ncpu := if localNcpu = .none then cfgNcpu else localNcpu
+  let ncpu := if ncpu = .none then PyVal.int 1 else ncpu
+  match ncpu with
+  | .int n => if n < 1 then .error "ValueError" else .ok n.toNat
+  | _ => .error "TypeError"
+
+/-- `Analysis.do_trials`: `ncpu = get_ncpu(…)`, `result_list = parallelize(…)`, then
+`result_list[0].dtype` (an `IndexError` for an empty list) and the record array in list order -/
+def assembleTrials (rs : List β) : Except String (List β) :=
+  match rs with
+  | [] => .error "IndexError"
+  | _ => .ok rs
+
 /-! ### schedules -/
 
 /-- agent number `i` of a system with `n` children: 0 = master, `i+1` = child `i` -/
